@@ -76,10 +76,13 @@ def apply(options: Options) -> praxis_shim.ShardedGradientTransformation:
 
 def _reshaper_options(options: Options) -> reshaper.Options:
   if options.second_order_type == SecondOrderType.SHAMPOO:
-    assert options.shampoo_options
+    if not options.shampoo_options:
+      raise ValueError('shampoo_options must be set for SecondOrderType.SHAMPOO')
     block_size = options.shampoo_options.block_size
     return reshaper.Options(options.merge_dims, block_size)
   if options.second_order_type == SecondOrderType.SKETCHY:
+    if not options.sketchy_options:
+      raise ValueError('sketchy_options must be set for SecondOrderType.SKETCHY')
     return reshaper.Options(options.merge_dims, 0)
   else:
     raise ValueError(
